@@ -272,9 +272,12 @@ Section Sem.
         (* the process is stopped after k primitive steps of this evaluation's save; whatever
            comes next in the history is done by a new process *)
   | Kill                                            (* stopped between two evaluations *)
-  | BootstrapAbort.
+  | BootstrapAbort
         (* the bootstrap loop is left by an exception (KeyboardInterrupt, an error on a resample):
            only its `finally` clause runs; the object stays alive and may be used again *)
+  | EstimateEnd (x : list val).
+        (* normal end of estimate(): self.change_init_values(estimates) -- the estimates become the
+           starting values of the object (quick_estimate does not do that) *)
 
   Definition len_ok (cfg : config) (x : list val) : bool :=
     Nat.eqb (List.length x) (List.length (cf_names cfg)).
@@ -305,6 +308,11 @@ Section Sem.
         {| st_fs := st_fs s; st_best := st_best s;
            st_susp := negb (c_abort_resumes c) && st_susp s;
            st_other := negb (c_abort_restores c) && st_other s; st_init := st_init s |}
+    | EstimateEnd x =>
+        if len_ok cfg x then
+          {| st_fs := st_fs s; st_best := st_best s; st_susp := st_susp s; st_other := st_other s;
+             st_init := x |}
+        else s
     end.
 
   Definition run (cfg : config) (s : state) (h : list op) : state := fold_left (step cfg) h s.
@@ -322,6 +330,7 @@ Section Sem.
     | BootstrapEnd => (l, false)
     | CrashEval _ _ _ _ | Kill => ([], false)
     | BootstrapAbort => (l, false)
+    | EstimateEnd _ => (l, inboot)
     end.
   Definition counted (cfg : config) (h : list op) : list (list val * fval) :=
     fst (fold_left (spec_step cfg) h ([], false)).
@@ -350,7 +359,7 @@ End Sem.
 
 Arguments Eval {val}. Arguments CrashEval {val}. Arguments EstimateStart {val}.
 Arguments QuickStart {val}. Arguments BootstrapBegin {val}. Arguments BootstrapEnd {val}.
-Arguments Kill {val}. Arguments BootstrapAbort {val}.
+Arguments Kill {val}. Arguments BootstrapAbort {val}. Arguments EstimateEnd {val}.
 
 (* ------------------------------------------------- executable instance used by the streams *)
 (* values are represented by their decimal text (what str(v) printed) *)
